@@ -75,6 +75,24 @@ def counter_of_while(loop):
                 return a.id
             if isinstance(b, ast.Name) and op is ast.Lt and is_const(a, 0):
                 return b.id
+    if isinstance(t, ast.Constant) and t.value is True:
+        # guard form: `while True: ...; if c <= 0 [or ...]: break; ...` with every yield of the loop after the guard
+        for i, st in enumerate(loop.body):
+            if isinstance(st, ast.If) and not st.orelse and len(st.body) == 1 and isinstance(st.body[0], ast.Break):
+                ors = st.test.values if isinstance(st.test, ast.BoolOp) and isinstance(st.test.op, ast.Or) else [st.test]
+                for x in ors:
+                    cp = compare_parts(x)
+                    name = None
+                    if cp:
+                        a, op, b = cp
+                        if isinstance(a, ast.Name) and ((op is ast.LtE and is_const(b, 0)) or (op is ast.Lt and is_const(b, 1))):
+                            name = a.id
+                        if isinstance(b, ast.Name) and ((op is ast.GtE and is_const(a, 0)) or (op is ast.Gt and is_const(a, 1))):
+                            name = b.id
+                    if name is not None:
+                        early = [y for s2 in loop.body[:i] for y in ast.walk(s2) if isinstance(y, (ast.Yield, ast.YieldFrom))]
+                        if not early:
+                            return name
     return None
 
 
@@ -369,3 +387,80 @@ def resolved_callee(f, call):
             if len(vals) == 1 and None not in vals:
                 return vals.pop()
     return d
+
+
+def expand(f, expr, at=None, depth=5, keep=()):
+    """`expr` with local temporaries replaced by their defining expressions: a Name whose only reaching definition
+    at `at` is a plain `name = <value>` is replaced by <value> (recursively, evaluated where it was bound).  Names with
+    several reaching definitions, parameters, loop targets and names in `keep` stay.  Returns a fresh tree."""
+    import copy as _copy
+    if at is None:
+        ns = f.cfg.node_of_stmt(expr)
+        if not ns:
+            return expr
+        at = ns[0]
+    rd = f.rd
+
+    def rec(e, at_node, d):
+        if isinstance(e, ast.Name) and isinstance(e.ctx, ast.Load) and e.id not in keep and rd.is_local(e.id) and d > 0:
+            defs = rd.at(at_node, e.id)
+            if len(defs) == 1 and defs[0].kind == 'assign' and defs[0].value is not None and \
+                    e.id not in {x.id for x in ast.walk(defs[0].value) if isinstance(x, ast.Name)}:
+                return rec(_copy.deepcopy(defs[0].value), defs[0].node, d - 1)
+            return e
+        if isinstance(e, (ast.Lambda, ast.ListComp, ast.SetComp, ast.DictComp, ast.GeneratorExp)):
+            return e
+        for field, val in ast.iter_fields(e):
+            if isinstance(val, ast.expr):
+                setattr(e, field, rec(val, at_node, d))
+            elif isinstance(val, list):
+                for i, x in enumerate(val):
+                    if isinstance(x, ast.expr):
+                        val[i] = rec(x, at_node, d)
+                    elif isinstance(x, ast.keyword):
+                        x.value = rec(x.value, at_node, d)
+        return e
+    return rec(_copy.deepcopy(expr), at, depth)
+
+
+def xsrc(f, expr, at=None, keep=()):
+    """source text of expand(...)"""
+    from .astutil import src
+    return src(expand(f, expr, at, keep=keep))
+
+
+def ceval(f, node, extra=None):
+    """peval with the single-assignment module-level constants of f's module in scope (f: Func or Module)"""
+    m = getattr(f, 'module', f)
+    env = dict(module_consts(m))
+    if extra:
+        env.update(extra)
+    return peval(node, env)
+
+
+def truth(test, atom):
+    """three-valued evaluation of a boolean test: `atom(expr)` gives True / False / None (unknown) for the leaves;
+    not / and / or are interpreted.  Returns True / False / None."""
+    if isinstance(test, ast.UnaryOp) and isinstance(test.op, ast.Not):
+        v = truth(test.operand, atom)
+        return None if v is None else (not v)
+    if isinstance(test, ast.BoolOp):
+        vals = [truth(v, atom) for v in test.values]
+        if isinstance(test.op, ast.And):
+            if any(v is False for v in vals):
+                return False
+            return True if all(v is True for v in vals) else None
+        if any(v is True for v in vals):
+            return True
+        return False if all(v is False for v in vals) else None
+    return atom(test)
+
+
+def module_value(f, node):
+    """a Name bound exactly once at module level -> its value expression (else the node itself)"""
+    m = getattr(f, 'module', f)
+    seen = 0
+    while isinstance(node, ast.Name) and len(m.assigns.get(node.id, ())) == 1 and seen < 5:
+        node = m.assigns[node.id][0]
+        seen += 1
+    return node
